@@ -13,6 +13,7 @@ import signal
 signal.signal(signal.SIGPIPE, signal.SIG_DFL)
 import astdb
 from astdb import AnalysisBroken
+from interp import OutOfBounds
 from report import Report
 
 PROPS = {
@@ -27,6 +28,8 @@ PROPS = {
     'C16': ('c16', 'proof', ['SUNalg', 'instantiate']),
     'C09': ('c09', 'proof', ['SUNalg', 'instantiate']),
     'C12': ('c12', 'other', ['SUNalg']),
+    'C04': ('c04', 'other', ['SQuIDS', 'SUNalg', 'instantiate']),
+    'C10': ('c10', 'other', ['SQuIDS', 'SUNalg', 'instantiate']),
     'C15': ('c15', 'other', ['SUNalg', 'instantiate', 'const', 'SQuIDS', 'MatrixExp']),
 }
 
@@ -58,6 +61,11 @@ def main(argv):
         mod = importlib.import_module(modname)
         explanation = (mod.__doc__ or '').strip()
         mod.run(db, rep, tier)
+    except OutOfBounds as e:
+        # abstract blocks have exactly the extent the library allocates: an access outside it is a defect of the code
+        # under analysis (undefined behaviour), reported against the property whose analysis reached it
+        rep.fail('X.extent', '%s[%s]' % (e.region.name, e.idx), e.where or '?', 'every access inside the extent of the addressed block', str(e))
+        rep.break_('analysis stopped at the first out-of-extent access; remaining obligations not evaluated')
     except AnalysisBroken as e:
         rep.break_('%s: %s' % (type(e).__name__, e))
         if os.environ.get('SQV_DEBUG'):
